@@ -57,13 +57,20 @@ manifest = {
         "serves_properties": [c["property_id"] for c in checks],
         "kind_free_text": "rustc_private fact extractor (MIR of every workspace body) + Python rule packs: control "
                           "dependence guards, provenance terms, dominance/path rules, who-may tables, finite "
-                          "decision tables, sibling cross-checks",
+                          "decision tables, sibling cross-checks; rules read each function through an "
+                          "idiom-independent view (sa/inline.py: MIR inlining of std combinator models written in "
+                          "Rust, closure calls and un-named private helpers; guard lifting; case tables; iterator "
+                          "pipeline normal form)",
     }],
     "checks": checks,
     "not_applicable": na,
     "notes": "Static analysis only. `./check Cxx` re-extracts MIR facts from /repo's working tree when any source "
              "changed (about 15-40 s, shared by all properties through .cache/), then runs the pack (2-5 s). "
-             "Exit 2 = checker/infrastructure error (e.g. /repo does not compile), never a verdict.",
+             "Exit 2 = checker/infrastructure error (e.g. /repo does not compile), never a verdict. Regression corpora "
+             "kept under /verif: seeded/ (78 confirmed property-breaking changes written by sub-agents that saw only the "
+             "property text; each must be reported by its own property's check), neutral/ (60 behaviour-preserving "
+             "refactorings; every check must stay silent), mutations/ (catalogue incl. neutral edits); run with "
+             "tools/run_corpus.py and mutations/run.py on scratch copies.",
 }
 with open(os.path.join(VERIF, "MANIFEST.json"), "w") as fh:
     json.dump(manifest, fh, indent=1)
